@@ -257,6 +257,7 @@ def run_stage(stage, seed, tier, outdir, only_case=None):
     bdir = build(stage.variant, [stage.driver] + list(stage.extra_targets))
     exe = os.path.join(bdir, stage.driver)
     stage.args = {k: (v.replace("{bdir}", bdir) if isinstance(v, str) else v) for k, v in stage.args.items()}
+    stage.env = {k: (v.replace("{bdir}", bdir) if isinstance(v, str) else v) for k, v in stage.env.items()}
     results = {"obs": [], "crashes": [], "harness_errors": [], "timeouts": []}
     os.makedirs(outdir, exist_ok=True)
     if only_case is not None:
